@@ -10,3 +10,17 @@ add("C16",
     "Trusted: TLC, the JSON export of the registry (harness/export.py), the projection harness/project.py; legacy spellings are "
     "those derivable by replacing one or all occurrences of one current fragment by its legacy fragment.",
     "DESIGN.md 6/C16")
+
+add("C01",
+    "TLC model check of the conversion-walk machine (ConvAlgebra.tla) over coefficient grids + TLC judgement (MC_C01.tla) of an exhaustive "
+    "sweep of the shipped tables + replay of TLC-generated conversion transitions over exact real rows",
+    "ConvAlgebra.tla models UnitDatabase.Convert as a walk between units of one type with the two Moebius records of each unit; TLC checks "
+    "on coefficient grids that the base amount is conserved along every walk (round trip + path independence), that increasing records never "
+    "reorder two amounts and that the same-unit step is exact, and exhibits the counterexample for a unit whose two records differ. Every row "
+    "of the three shipped databases is judged by TLC against the lemmas' hypothesis (same literal coefficients in both closures, d = 0, "
+    "positive slope, closure behaves as its record, identity base first); every ordered unit pair (all ~35k, both POSC builds and FillSimple) "
+    "is swept through UnitDatabase.Convert and the measured deviations are judged by TLC; TLC-predicted exact conversions over real rows are "
+    "replayed into the code.",
+    "Float rounding is observed, not modelled (1e-9 relative threshold defined in the spec, measured worst case < 1e-12). Bounded grids, "
+    "not a proof over all coefficients. Quick tier checks path independence through the base unit and one seeded pivot per pair.",
+    "DESIGN.md 6/C01")
